@@ -17,6 +17,7 @@ type HistGen struct {
 	NextId int
 	Ids   []string // ids handed out so far
 	MaxDepth int
+	Focus []string // fields the criteria and sorts prefer (the indexed ones)
 }
 
 func NewHistGen(g *Gen, ncoll int, critDepth int) *HistGen {
@@ -97,6 +98,9 @@ func (h *HistGen) operand() interface{} {
 }
 
 func (h *HistGen) field() string {
+	if len(h.Focus) > 0 && h.G.pick(10) < 6 {
+		return h.Focus[h.G.pick(len(h.Focus))]
+	}
 	fs := append([]string{"_id", "arr"}, fieldNames...)
 	return fs[h.G.pick(len(fs))]
 }
@@ -215,6 +219,14 @@ func (h *HistGen) WriteQuery(coll string) J {
 }
 
 func (h *HistGen) Upd() J {
+	u := h.upd0()
+	if _, isNil := u["nil"]; !isNil && h.G.pick(2) == 0 {
+		u["inplace"] = 1
+	}
+	return u
+}
+
+func (h *HistGen) upd0() J {
 	switch h.G.pick(8) {
 	case 0:
 		return J{"nil": true}
